@@ -129,6 +129,10 @@ def cases(tier, seed):
             for scheme in SCHEMES:
                 yield {"fam": "eph", "parent": parent, "groups": [[i] for i in range(N)], "m": N, "variant": "auxiliary-space", "sector": [1],
                        "scheme": scheme, "time": "imag"}
+    # nodes that carry two basis sets (so that a node of the auxiliary tree has physical indices P0 Q0 P1 Q1)
+    for groups in ([[0, 1], [2]], [[0], [1, 2]]):
+        for scheme in SCHEMES:
+            yield {"fam": "eph", "parent": [-1, 0], "groups": groups, "m": 3, "variant": "auxiliary-space", "sector": [1], "scheme": scheme, "time": "imag"}
 
 
 def envelope(scheme, hnorm, dt, nsteps):
@@ -391,6 +395,51 @@ def run_chain_cmp(desc, seed, viol, tag, hnorm):
                 add(viol, f"C12:step-type:{scheme}:{timek}", f"{tag}: tree evolve with the step given as {name} differs from the step given as {lst[0][0]} by rel {rel_err(v, ref):.2e}")
 
 
+def run_aux_generic(desc, seed, basis, h_terms, viol, tag, tree, tree2, H):
+    """nodes with several basis sets (max_entangled_ex refuses them): a random state on the auxiliary tree is propagated by the operator
+    that acts on the physical half only, against (exp(-i tau H) x 1_Q) psi; then the same operator object propagates a pure state"""
+    from renormalizer.tn import TTNS, TTNO
+    parent, groups, scheme = desc["parent"], [tuple(g) for g in desc["groups"]], desc["scheme"]
+    order = list(basis)
+    order2 = [b for b in tree2.basis_list if type(b).__name__ != "BasisDummy"]
+    Hd = np.asarray(H.todense(order))
+    H2d = np.asarray(TTNO(tree2, h_terms).todense(order2))
+    hnorm = np.abs(np.linalg.eigvalsh((Hd + Hd.conj().T) / 2)).max()
+    nrun = 0
+    try:
+        for which, tr, od, Hdense in (("auxiliary", tree2, order2, H2d), ("pure", tree, order, Hd)):
+            env.reseed(seed, ("c12auxg", which, tuple(parent), tuple(groups)))
+            t = TTNS.random(tr, np.array([1]), 6)
+            t.canonicalise()
+            t.canonicalise()
+            psi0 = TR.dense_state(t, od)
+            for timek, step in (("real", 0.05), ("imag", -0.05j)):
+                configure(t, scheme)
+                out = t.evolve(H, step)
+                nrun += 1
+                phi = TR.dense_state(out, od)
+                if timek == "real":
+                    refv = scipy.linalg.expm(-1j * 0.05 * Hdense) @ psi0
+                else:
+                    refv = scipy.linalg.expm(-0.05 * Hdense) @ psi0
+                    refv = refv / np.linalg.norm(refv) * np.linalg.norm(phi)
+                err = np.linalg.norm(phi - refv) / np.linalg.norm(refv)
+                lim = max(envelope(scheme, hnorm, 0.05, 1), 1e-6) * (3 if timek == "imag" else 1)
+                if err > lim:
+                    sig = f"C12:auxiliary-space:propagator:{scheme}:{timek}" if which == "auxiliary" else f"C12:operator-reused-after-auxiliary-state:{scheme}:{timek}"
+                    add(viol, sig, f"{tag}: {which} state, {timek} step: relative error {err:.3e} > {lim:.3e}")
+    except FloatingPointError:
+        return {"skipped": 1, "outcome": "random-state-construction-failed"}
+    except Exception as e:
+        import sys
+        import traceback
+        tb = traceback.extract_tb(sys.exc_info()[2])
+        lib = [f.name for f in tb if "/renormalizer/" in f.filename]
+        add(viol, f"C12:auxiliary-space:exception:{type(e).__name__}:{lib[-1] if lib else '?'}:{scheme}", f"{tag}: {e!r}")
+    return {"nontrivial": True, "counters": {"evolve_calls": nrun}, "outcome": f"auxg:{scheme}:{'viol' if viol else 'ok'}", "viol": list(viol.values()),
+            "sample": {"desc": desc}}
+
+
 def run_aux(desc, seed, basis, h_terms, viol, tag):
     """purified (density-operator-like) state on P+Q, operator on P only, imaginary time: <O> follows the Gibbs average"""
     from renormalizer.tn import TTNS, TTNO
@@ -398,11 +447,13 @@ def run_aux(desc, seed, basis, h_terms, viol, tag):
     parent, groups, scheme = desc["parent"], [tuple(g) for g in desc["groups"]], desc["scheme"]
     tree = TR.build_basis_tree(parent, groups, basis)
     tree2 = tree.add_auxiliary_space()
+    H = TTNO(tree, h_terms)
+    if max(len(g) for g in groups) > 1:
+        return run_aux_generic(desc, seed, basis, h_terms, viol, tag, tree, tree2, H)
     try:
         s = utils_eph.max_entangled_ex(tree2)
     except AssertionError:
         return {"rejected": 1, "outcome": "max_entangled_ex-refused"}
-    H = TTNO(tree, h_terms)
     order = list(basis)
     Hd = np.asarray(H.todense(order))
     mask = sector_projector([np.asarray(b.sigmaqn) for b in basis], [1])
@@ -431,5 +482,36 @@ def run_aux(desc, seed, basis, h_terms, viol, tag):
     tol = {"vmf": 2e-3, "pc": 1e-4, "ps": 5e-3, "ps2": 5e-3}[scheme]
     if abs(e - ref) > tol * max(1.0, abs(ref)):
         add(viol, f"C12:auxiliary-space:thermal-energy:{scheme}", f"{tag}: <H> at beta={beta} is {e}, canonical average in the one-particle sector {ref}")
+    # history across basis trees: the SAME operator object, after having been used with the auxiliary-space state, now propagates a
+    # pure state on the original tree (anything the operator remembers about the state it met first would show here)
+    try:
+        env.reseed(seed, ("c12aux-pure", tuple(parent), tuple(groups)))
+        t = TTNS.random(tree, np.array([1]), 6)
+        t.canonicalise()
+        t.canonicalise()
+        psi0 = TR.dense_state(t, order)
+        hnorm = np.abs(np.linalg.eigvalsh((Hd + Hd.conj().T) / 2)).max()
+        for timek, step in (("real", 0.05), ("imag", -0.05j)):
+            configure(t, scheme)
+            out = t.evolve(H, step)
+            nrun += 1
+            phi = TR.dense_state(out, order)
+            if timek == "real":
+                refv = scipy.linalg.expm(-1j * 0.05 * Hd) @ psi0
+            else:
+                refv = scipy.linalg.expm(-0.05 * Hd) @ psi0
+                refv = refv / np.linalg.norm(refv) * np.linalg.norm(phi)
+            err = np.linalg.norm(phi - refv) / np.linalg.norm(refv)
+            lim = max(envelope(scheme, hnorm, 0.05, 1), 1e-6) * (3 if timek == "imag" else 1)
+            if err > lim:
+                add(viol, f"C12:operator-reused-after-auxiliary-state:{scheme}:{timek}", f"{tag}: after propagating an auxiliary-space state the same TTNO propagates a pure state with relative error {err:.3e} > {lim:.3e}")
+    except FloatingPointError:
+        pass
+    except Exception as e:
+        import sys
+        import traceback
+        tb = traceback.extract_tb(sys.exc_info()[2])
+        lib = [f.name for f in tb if "/renormalizer/" in f.filename]
+        add(viol, f"C12:operator-reused-after-auxiliary-state:exception:{type(e).__name__}:{lib[-1] if lib else '?'}:{scheme}", f"{tag}: {e!r}")
     return {"nontrivial": True, "counters": {"evolve_calls": nrun}, "outcome": f"aux:{scheme}:{'viol' if viol else 'ok'}", "viol": list(viol.values()),
             "sample": {"desc": desc, "energy": float(np.real(e)), "gibbs": ref}}
